@@ -62,12 +62,13 @@ def lib_model(d):
     for k, v in d.items():
         p = k.split('/')
         if p[0].startswith('sh') and p[0][2:].isdigit():
-            s = sheets.setdefault(int(p[0][2:]), {'cells': {}, 'links': {}, 'merges': {}, 'styles': {}})
+            s = sheets.setdefault(int(p[0][2:]), {'cells': {}, 'links': {}, 'merges': {}, 'styles': {}, 'tables': {}})
             if p[1] == 'name': s['name'] = v
             elif p[1] == 'cell': s['cells'].setdefault(p[2], {})[p[3]] = v
             elif p[1] == 'link': s['links'][p[2]] = (v[2:], v[0] == 'L')
             elif p[1] == 'merge': s['merges']['/'.join(p[2:])] = int(v)
             elif p[1] == 'style': s['styles'].setdefault(p[2], {})[p[3]] = v
+            elif p[1] == 'table': s['tables']['/'.join(p[2:])] = v
         elif p[0] == 'wb' and p[1] == 'name':
             names[(p[2], '/'.join(p[3:]))] = v
     return sheets, names
@@ -118,7 +119,7 @@ def check_generated(arg):
     own = xlsx_decode.decode(data)
     oracle_issue = None
     for i, s in enumerate(intent['sheets']):
-        ls = sheets.get(i, {'cells': {}, 'links': {}, 'merges': {}, 'styles': {}})
+        ls = sheets.get(i, {'cells': {}, 'links': {}, 'merges': {}, 'styles': {}, 'tables': {}})
         if ls.get('name') != s['name']:
             divs.append(('sheet-name', 'file %r library %r' % (s['name'], ls.get('name'))))
         for ref, e in s['cells'].items():
@@ -146,6 +147,10 @@ def check_generated(arg):
                 divs.append(('hyperlink', '%s!%s file (%r, loc=%s) library %r' % (s['name'], ref, url, loc, ls['links'].get(ref))))
         if sorted(s['merges']) != sorted(ls['merges']):
             divs.append(('merges', '%s file %r library %r' % (s['name'], s['merges'], sorted(ls['merges']))))
+        exp_tables = {t[0]: 'display=%s area=%s cols=[%s]' % (rust_str(t[0]), t[1], ', '.join(rust_str(c) for c in t[2])) for t in s.get('tables', [])}
+        stats['tables'] = stats.get('tables', 0) + len(exp_tables)
+        if exp_tables != ls.get('tables', {}):
+            divs.append(('table', '%s file means %r library shows %r' % (s['name'], exp_tables, ls.get('tables'))))
     for n, a, l in intent['names']:
         stats['names'] += 1
         key = ('global' if l is None else 'local%d' % l, n)
@@ -153,6 +158,11 @@ def check_generated(arg):
         if got is None or canon(got) != canon(a):
             divs.append(('defined-name', '%r file %r library %r' % (key, a, got)))
     return ('gen', seed, feats, divs, stats, oracle_issue)
+
+
+def rust_str(x):
+    """the harness dumps table strings with Rust's {:?}; the generator only uses printable characters"""
+    return '"' + x.replace('\\', '\\\\').replace('"', '\\"') + '"'
 
 
 def canon(addr):
